@@ -143,6 +143,16 @@ Theorem C18_fit_to_cubic_affine_endpoints :
   aff_apply aff (mkPoint 1%R 0%R) = mkPoint (px start + dx)%R (py start + dy)%R.
 Proof. exact fit_to_cubic_affine_endpoints. Qed.
 
+(** CurveDist::from_curve (reals): the 20 samples a candidate cubic is compared with sit at
+    start + k (end - start)/21, k = 1..20; every parameter of the range is within one step
+    (end - start)/21 of a retained sample, and the retained samples are interior. So a feature of the
+    source that is wider than two steps cannot lie entirely between the samples eval_ray looks at.
+    (This says where the estimate looks, not that the estimate is right: [accepted_within_accuracy]
+    stays unproved.) *)
+Theorem C18_curvedist_samples_cover : forall s e t : R, (s <= t <= e)%R ->
+  exists u, (In u (cd_kept_ts s e) /\ (Rabs (t - u) <= (e - s) / 21)%R /\ (s < u < e)%R) \/ s = e.
+Proof. exact cd_samples_cover. Qed.
+
 (* ---------------------------------------------------------------------------------- *)
 (** * simplify_bezpath: outer state machine (every scalar instance, abstract fitter) *)
 
